@@ -33,7 +33,7 @@ RULE = ("seeded random declaration sets (1-12 variables, formats BHIQbhiq x "
 ASSUMPTIONS = ["possible CPUs == os.cpu_count() on this machine (checked)"]
 MIN_EVALUATIONS = {"quick": 300, "thorough": 8000}
 SCALAR = ["B", "H", "I", "Q", "b", "h", "i", "q", "x"]
-MULTI = ["3H", "2I", "5B", "64I", "2q"]
+MULTI = ["3H", "2I", "5B", "64I", "2q", "IH", "QI", "Ib", "QB", "HB"]
 
 
 def plan(tier, seed):
@@ -65,12 +65,20 @@ def gen_case(rng):
 def value_for(rng, fmt):
     if fmt == "x":
         return rng.randint(-10 ** 9, 10 ** 9) / 100000
+    if len(fmt) > 1 and not fmt[0].isdigit():
+        # mixed-width tuple formats such as "IH"
+        return tuple(value_for(rng, ch) for ch in fmt)
     letter = fmt[-1]
     n = int(fmt[:-1]) if len(fmt) > 1 else 1
     size = struct.calcsize(letter)
     vals = []
     for _ in range(n):
         v = rng.getrandbits(8 * size)
+        if rng.random() < 0.3:
+            # the 32-bit immediate boundaries
+            v = rng.choice([0x80000000, 0xffffffff, 0x7fffffff, 0x90000000,
+                            0x100000000, 0xdeadbeef, 1, 0]) \
+                & ((1 << (8 * size)) - 1)
         if letter.islower() and v >> (8 * size - 1):
             v -= 1 << (8 * size)
         vals.append(v)
@@ -83,7 +91,10 @@ def twin_fmt(fmt):
 
 def build(case):
     m = ArrayMap()
-    bns = {"license": "GPL", "m": m}
+    bns = {"license": "GPL", "m": m, "mode": m.globalVar("B")}
+    crng = random.Random(case["valseed"] ^ 0x5a5a)
+    consts = {n: value_for(crng, f) for n, f in visible_vars(case)
+              if len(f) == 1}
     for n, f in case["base"]:
         bns[n] = m.globalVar(f)
         if len(f) == 1:
@@ -117,6 +128,13 @@ def build(case):
     subs = [subclasses[k]() for k in case["insts"]]
 
     def program(self):
+        with self.mode == 1:
+            # compile-time constants stored by the program
+            for n, f in visible_vars(case):
+                if len(f) == 1:
+                    setattr(self, n, consts[n])
+            self.r0 = 2
+            self.exit()
         for n, f in visible_vars(case):
             if len(f) == 1:
                 setattr(self, "t_" + n, getattr(self, n))
@@ -127,6 +145,7 @@ def build(case):
     dns["program"] = program
     Derived = type("VfDerived", (Base,), dns)
     e = Derived(subprograms=subs)
+    e.vf_consts = consts
     return e, subs, m
 
 
@@ -257,6 +276,19 @@ def check_case(case, res):
                             f"program copied {pname}.{n} ({f}) = "
                             f"{vals[pname, n]} as {tw}", case=case)
                         return
+            # ---- constants stored by the program ------------------------
+            e.mode = 1
+            ld.run_k(bytes(64))
+            for n, c in e.vf_consts.items():
+                f = dict(visible_vars(case))[n]
+                got = getattr(e, n)
+                res.count("program_constant_stores_checked")
+                if not same(f, got, c):
+                    res.violation(
+                        "unexplained:program-constant-store",
+                        f"the program stored the constant {c!r} into "
+                        f"main.{n} ({f}); Python reads {got!r}", case=case)
+                    return
             if len(res.samples) < 3:
                 res.sample(dict(case=case, ranges=ranges, map_size=msize))
         finally:
